@@ -595,8 +595,9 @@ class SparselyTwoDimensionallyHistogramMethods:
 
         grid = set2Dsparse(self, yminBin, ymaxBin, np.zeros((ynum, xnum)))
 
-        x_ranges = np.arange(xlow, xhigh + xbinWidth, xbinWidth)
-        y_ranges = np.arange(ylow, yhigh + ybinWidth, ybinWidth)
+        # one more edge than bins: the length of a float-stepped arange depends on rounding
+        x_ranges = xlow + np.arange(xnum + 1) * xbinWidth
+        y_ranges = ylow + np.arange(ynum + 1) * ybinWidth
 
         return x_ranges, y_ranges, grid
 
